@@ -381,6 +381,8 @@ class Evaluator(object):
                         sub = val[2][i]
                     elif val[0] == 'call' and val[1].startswith('narrow::') and ctor == 'Ok' and i == 0:
                         sub = ('cast', val[2][0], val[1][len('narrow::'):])
+                    elif val[0] == 'call' and val[1] in ('std::slice::get', 'core::slice::get') and len(val[2]) == 2 and ctor == 'Some' and i == 0:
+                        sub = ('index', val[2][0], val[2][1])  # what `s.get(range)` hands out is `s[range]`
                     else:
                         sub = ('field', val, '%s.%d' % (ctor.split('::')[-1], i))
                 self.bind_pat(sp, sub, env)
